@@ -197,7 +197,10 @@ def classify(results, baseline):
         if r['unsupported']:
             out['demoted'].append(dict(key=r['key'], reason=r['unsupported'], was_proved=was_proved,
                                        changed=(b.get('sha') != r['sha'])))
-        elif b.get('dead') is not None and r.get('dead_paths', 0) > b['dead']:
+        elif b.get('dead') is not None and r.get('dead_paths', 0) > b['dead'] and not (
+                b.get('sha') == r['sha'] and {h for o in r['obligations'] for h in o.get('vcs', [])} <= set(b.get('vcs', []))):
+            # (byte-identical VCs on unchanged source: the same paths as in the baseline, the feasibility test merely answered
+            # within its second this time -- not a change)
             # vacuity guard: more infeasible paths than when the baseline was taken -- what they discharge is not believed
             out['demoted'].append(dict(key=r['key'], was_proved=was_proved, changed=(b.get('sha') != r['sha']),
                                        reason='vacuity guard: %d infeasible paths, %d when the baseline was taken'
